@@ -10,12 +10,19 @@ var _ = strings.HasPrefix
 
 func verif_forall[T any](f func(T) bool) bool { return true }
 
+// verif_same: the two references denote the same object (interpreted by govc)
+func verif_same[T any](a, b T) bool { return false }
+
 // SpecUeOK: the invariant of every subscriber context in the pool: established by (*ChfUe).init,
 // which is the only place that assigns these members.
 func SpecUeOK(ue *ChfUe) bool {
 	return ue != nil && ue.ReservedQuota != nil && ue.UnitCost != nil && ue.AcctRequestNum != nil && ue.RatingType != nil &&
-		ue.Cdr != nil && ue.AbmfClient != nil && ue.RatingClient != nil && ue.AbmfMux != nil && ue.RatingMux != nil
+		ue.Cdr != nil && ue.AbmfClient != nil && ue.RatingClient != nil && ue.AbmfMux != nil && ue.RatingMux != nil &&
+		!verif_same(ue.UnitCost, ue.AcctRequestNum) // two maps made by init
 }
+
+// GhostKnown: the SUPIs that have a context in the pool (ghost view of UePool membership)
+var GhostKnown map[string]bool
 
 // SpecUeOf: the subscriber context registered for a SUPI. A context, once added to the pool, is never
 // replaced (AddChfUeToUePool is only called by NewCHFUe after a failed lookup).
@@ -27,11 +34,15 @@ func SpecUeOf(supi string) *ChfUe { return nil }
 // are outside the verified subset: its contract is assumed.
 //@ func (*CHFContext).NewCHFUe [C11 C12 C10]
 //@   trusted
-//@   ensures result1 == nil ==> SpecUeOK(result0) && result0 == SpecUeOf(supi)
+//@   ensures result1 == nil ==> SpecUeOK(result0) && result0 == SpecUeOf(supi) && GhostKnown[supi]
+//@   ensures result1 != nil ==> GhostKnown[supi] == old(GhostKnown[supi])
+//@   ensures forall k string :: k != supi ==> GhostKnown[k] == old(GhostKnown[k])
+//@   modifies mapof(GhostKnown)
 //@   ensures result1 != nil ==> result0 == nil
 
 //@ func (*CHFContext).ChfUeFindBySupi [C11 C12 C10 C01 C06]
 //@   trusted
+//@   ensures result1 == GhostKnown[supi]
 //@   ensures result1 ==> SpecUeOK(result0) && result0 == SpecUeOf(supi)
 //@   ensures result1 ==> strings.HasPrefix(supi, "imsi-")
 //@   ensures !result1 ==> result0 == nil
